@@ -139,7 +139,7 @@ pub fn run(ctx: &Ctx, replay: Option<&J>) -> CheckResult {
     ev.evaluations += 3;
     ev.extra.insert("supported_numbers".into(), json!(MSG_TABLE.len()));
 
-    let reps = ctx.n(40, 600);
+    let reps = ctx.n(40, 3000);
     let parts: Vec<(Evidence, Vec<Violation>)> = (0..4096u32)
         .into_par_iter()
         .map(|n| {
